@@ -3,6 +3,7 @@ package verifh
 import (
 	"bytes"
 	"context"
+	"encoding/base64"
 	"encoding/json"
 	"errors"
 	"fmt"
@@ -10,6 +11,8 @@ import (
 	"net/http"
 	"net/http/httptest"
 	"net/url"
+	"regexp"
+	"strconv"
 	"strings"
 
 	"github.com/creachadair/jrpc2"
@@ -180,6 +183,23 @@ func judgeGet(q *getReq, useQuery bool) (why, cls string) {
 	pbits, merr := json.Marshal(params)
 	if merr != nil {
 		return fmt.Sprintf("the parser accepted the URL but its parameters cannot be marshalled: %v", merr), "params-not-marshalable"
+	}
+	// the documented typing rules, applied independently of the implementation
+	if ref, kind := refQueryParams(q.URL, useQuery); kind != "unspec" {
+		if kind == "error" {
+			return "the documented rules reject a value of this URL, yet the parser accepted it", "wrong-typing"
+		}
+		rbits, _ := json.Marshal(ref)
+		if ref == nil {
+			rbits = []byte("null")
+		}
+		got := pbits
+		if params == nil {
+			got = []byte("null")
+		}
+		if compactJSON(string(rbits)) != compactJSON(string(got)) {
+			return fmt.Sprintf("the parser produced parameters %s, the documented typing rules give %s", got, rbits), "wrong-typing"
+		}
 	}
 	switch method {
 	case "echo", "some/echo":
@@ -441,4 +461,85 @@ func scenarioC19Channel(r *Run) {
 		}
 		r.Fail("goroutine-left", "after closing the client and the bridge: %v", names)
 	}
+}
+
+var (
+	reInt   = regexp.MustCompile(`^[+-]?[0-9]+$`)
+	reFloat = regexp.MustCompile(`^[+-]?[0-9]+\.[0-9]+$`)
+)
+
+// refQueryParams applies the typing rules documented for ParseQuery (and
+// ParseBasic) to the query of rawURL. kind is "value", "error" (some value must
+// be rejected) or "unspec" (the documentation does not settle some value).
+func refQueryParams(rawURL string, useQuery bool) (any, string) {
+	u, err := url.Parse(rawURL)
+	if err != nil {
+		return nil, "unspec"
+	}
+	vals, err := url.ParseQuery(u.RawQuery)
+	if err != nil {
+		return nil, "unspec"
+	}
+	if !useQuery {
+		m := map[string]string{}
+		for k, v := range vals {
+			m[k] = v[0]
+		}
+		return m, "value"
+	}
+	if len(vals) == 0 {
+		return nil, "value"
+	}
+	out := map[string]any{}
+	for k, vs := range vals {
+		v := vs[0]
+		switch {
+		case len(v) >= 2 && v[0] == '"' && v[len(v)-1] == '"':
+			var sdec string
+			if json.Unmarshal([]byte(v), &sdec) != nil {
+				return nil, "error"
+			}
+			out[k] = sdec
+		case v != "" && (v[0] == '"' || v[len(v)-1] == '"'):
+			return nil, "unspec" // a quote on one side only
+		case reInt.MatchString(v):
+			n, err := strconv.ParseInt(v, 10, 64)
+			if err != nil {
+				return nil, "unspec" // does not fit an int64
+			}
+			out[k] = n
+		case reFloat.MatchString(v):
+			f, err := strconv.ParseFloat(v, 64)
+			if err != nil {
+				return nil, "unspec"
+			}
+			out[k] = f
+		case v == "true":
+			out[k] = true
+		case v == "false":
+			out[k] = false
+		case v == "null":
+			out[k] = nil
+		case len(v) >= 2 && v[0] == '\'' && v[len(v)-1] == '\'':
+			dec, err := base64.RawStdEncoding.DecodeString(strings.TrimRight(v[1:len(v)-1], "="))
+			if err != nil {
+				return nil, "error"
+			}
+			out[k] = dec
+		case v != "" && (v[0] == '\'' || v[len(v)-1] == '\''):
+			return nil, "unspec"
+		default:
+			if _, err := strconv.ParseFloat(v, 64); err == nil {
+				// exponents, hex floats, bare fractions, spellings of infinity: the
+				// documentation says "decimal digits and an optional leading sign"
+				// and the implementation is wider; not judged
+				return nil, "unspec"
+			}
+			if _, err := strconv.ParseInt(v, 0, 64); err == nil {
+				return nil, "unspec"
+			}
+			out[k] = v
+		}
+	}
+	return out, "value"
 }
